@@ -135,6 +135,14 @@ MUTANTS = {
     "compiled_flag_early": ("core.py", "        self.analyze_arguments()\n        dispatch = generate_dispatch(self, self.argument_analysis)", "        self._compiled = True\n        self.analyze_arguments()\n        dispatch = generate_dispatch(self, self.argument_analysis)", ["C18"]),
     "compile_reset_keeps_compiled": ("core.py", "            self._compiled = False\n            dispatch = getattr", "            dispatch = getattr", ["C18"]),
     "publish_primary_first": ("typemap.py", "        for tup, func in reversed(entries):\n            self[tup] = func", "        for tup, func in entries:\n            self[tup] = func", ["C18", "C19"]),
+    # ---- C19
+    "ensure_compiled_unlocked": ("core.py", "        with resolution_lock:\n            # Another thread may have compiled it in the meantime\n            if not self._compiled:\n                self.compile()",
+                                 "        if not self._compiled:\n            self.compile()", ["C19"]),
+    "ensure_compiled_no_recheck": ("core.py", "            # Another thread may have compiled it in the meantime\n            if not self._compiled:\n                self.compile()",
+                                   "            self.compile()", ["C19"]),
+    "missing_unlocked": ("typemap.py", "        with resolution_lock:\n            return self._missing(obj_t_tup)", "        return self._missing(obj_t_tup)", ["C19"]),
+    "compile_unlocked": ("core.py", "            with resolution_lock:\n                self._compile()", "            self._compile()", ["C19"]),
+    "all_lock_removed": ("typemap.py", "resolution_lock = threading.RLock()", "import contextlib\nresolution_lock = contextlib.nullcontext()", ["C19"]),
     # ---- C17
     "ext_first_base_only": ("core.py", "                for other in others:\n                    prev.add_mixins(other)\n", "", ["C17"]),
     "ext_no_copy": ("core.py", "                prev = prev.copy()\n                for other in others:", "                for other in others:", ["C17"]),
